@@ -344,6 +344,20 @@ OCTET_STRING_decode_ber(const asn_codec_ctx_t *opt_codec_ctx,
 		default:
 			if(sel) {
 				unsigned level = sel->cont_level;
+				if(level + 1 < td->tags_count + (tag_mode == 1)) {
+					/* A tag of the chain ber_check_tags() has checked */
+					expected_tag = tlv_tag;
+					break;
+				}
+				/*
+				 * X.690: 8.7.3.2, 8.23.6 (8.6.4.1): the segments of
+				 * a constructed string are OCTET STRINGs (BIT STRINGs)
+				 * whichever tag the string itself carries.
+				 */
+				expected_tag = (ASN_TAG_CLASS_UNIVERSAL
+					| ((type_variant == ASN_OSUBV_BIT ? 3 : 4) << 2));
+				if(tlv_tag == expected_tag)
+					break;
 				if(level < td->all_tags_count) {
 					expected_tag = td->all_tags[level];
 					break;
